@@ -20,7 +20,7 @@ for c in (0, 1, 255, 256, 2**31 - 1, 2**32, 2**63 - 1, 1_700_000_000):
                 now = t - thr - dn
                 if now < 0: continue
                 for frac in (0.0, 0.999):
-                    setclock(now + frac)
+                    setclock(now + frac if now < 2**52 else now)
                     for nbytes in (None, 9):
                         enc = int_to_bytes(c) if nbytes is None else c.to_bytes(nbytes, 'big')
                         exp_ts = t >= c and (thr <= 0 or t - now < thr)
